@@ -11,6 +11,14 @@ open Fbr.Host
 
 variable {σ : Type} {α β : Type} {H : HostOps σ} [L : HostLaws H]
 
+-- unification of a lemma about one model function against a goal about another must fail fast
+attribute [local irreducible] unitCall getFile statOf fdOf statFd statInode openInode fileHandleFromFd
+  openFileAndHandle doLookup validateName inodeData newHandle getData checkFdFlags createFileExcl doRelease
+  doGetattr doUnlink dropGid dropUid scopedGid scopedUid setCreds dropCreds withCreds dropCapFsetid raiseCapFsetid
+  withKillpriv setattrMode setattrOwner setattrSize setattrUtimens setattrData doOpen createOpenExisting createHandle
+  lookup forget setattr readlink symlink mknod mkdir unlink rmdir rename link open_ opendir create read write flush
+  fsync release releasedir fallocate lseek statfs setxattr getxattr listxattr removexattr
+
 syntax "inert_leaf" : tactic
 macro_rules | `(tactic| inert_leaf) => `(tactic| assumption)
 macro_rules | `(tactic| inert_leaf) => `(tactic| exact inertM_sys rfl)
@@ -168,6 +176,13 @@ theorem neutralM_opendir (cfg : Cfg) (i f : Nat) : NeutralM H (opendir cfg i f) 
   unfold opendir
   have := @neutralM_doOpen σ H L cfg i (f ||| O_DIRECTORY) 0
   neutral
+theorem neutralM_createOpenExisting (cfg : Cfg) (c : Ctx) (e : Entry) (f ff : Nat) : NeutralM H (createOpenExisting cfg c e f ff) := by
+  unfold createOpenExisting; neutral
+macro_rules | `(tactic| neutral_leaf) => `(tactic| exact neutralM_createOpenExisting _ _ _ _ _)
+omit L in
+theorem inertM_createHandle (cfg : Cfg) (i : Nat) (f : Fd) (fl : Nat) : InertM H (createHandle cfg i f fl) := by
+  unfold createHandle; inert
+macro_rules | `(tactic| inert_leaf) => `(tactic| exact inertM_createHandle _ _ _ _)
 theorem neutralM_create (cfg : Cfg) (c : Ctx) (p : Nat) (n : Name) (f m u ff : Nat) : NeutralM H (create cfg c p n f m u ff) := by
   unfold create; neutral
 theorem neutralM_read (cfg : Cfg) (i h sz off f : Nat) : NeutralM H (read cfg i h sz off f) := by
